@@ -44,6 +44,11 @@ def harness(pid, name=None, quick=({},), thorough=None, functions=(), bound="", 
     return deco
 
 
+def family(label):
+    """label family: obligations 'name[idx].re', 'name#lemma[..]' belong to family 'name'"""
+    return label.split("[")[0].split("#")[0]
+
+
 class ReplayMismatch(Exception):
     pass
 
@@ -292,6 +297,7 @@ MAX_PATHS = 256
 
 
 def run_instance_sym(h, params, qtimeout, want_smt2=True):
+    import quantarhei  # noqa: must be imported before numpy is patched
     import z3
     from symnum.core import ENGINE
     from symnum import npatch, solver
@@ -532,7 +538,7 @@ def run_property(pid, tier, replay_path=None, only=None, nproc=None):
                 nsat += 1
                 hsum["sat"] += 1
                 # one replay per (harness instance, label family)
-                fam = rec["label"].split("[")[0]
+                fam = family(rec["label"])
                 if (fam,) not in sat_seen and len(sat_seen) < 6:
                     sat_seen.add((fam,))
                     replay_tasks.append((pid, hname, params, "replay", 0, rec.get("model", {}),
@@ -549,9 +555,9 @@ def run_property(pid, tier, replay_path=None, only=None, nproc=None):
     for t, rr in zip(replay_tasks, rres):
         _, hname, params, _, _, model, _, rec = t
         label = rec["label"]
-        fam = label.split("[")[0]
+        fam = family(label)
         reproduced = [v for v in (rr.get("violations") or [])]
-        same = [v for v in reproduced if v["label"].split("[")[0] == fam]
+        same = [v for v in reproduced if family(v["label"]) == fam]
         if same:
             k = match_known(known, pid, hname, params, fam)
             payload = dict(property=pid, harness=hname, params=params, label=label,
@@ -694,8 +700,8 @@ def do_replay_file(pid, path):
         return 0
     h = HARNESSES[(pid, payload["harness"])]
     rr = run_pool([(pid, h.name, payload["params"], "replay", 0, payload["values"], None)], 1, 600)[0]
-    fam = payload["label"].split("[")[0]
-    same = [v for v in rr.get("violations", []) if v["label"].split("[")[0] == fam]
+    fam = family(payload["label"])
+    same = [v for v in rr.get("violations", []) if family(v["label"]) == fam]
     print(json.dumps(dict(reproduced=bool(same), violations=same[:3], error=rr.get("error")),
                      indent=1))
     if same:
